@@ -795,3 +795,149 @@ func RBracket(c *core.Ctx) {
 		}
 	}
 }
+
+// ---------------------------------------------------------------------------
+// R-EMPTYITER: every opcode that closes a group loop tests for an empty
+// iteration.
+//
+// A loop-closing opcode is recognised from the interpreter itself: one of its
+// clauses (forward or backtracking) has a path that pushes a new mark on the
+// grouping stack and then jumps back (goTo).  If the body matched the empty
+// string such an opcode must not iterate again — otherwise (x??)* style loops
+// spin until the count or the stack limit is reached and record phantom
+// captures.  The test compares the current text position with the saved mark:
+// `pos != mark`, or `matched := pos - mark; matched != 0`.
+// ---------------------------------------------------------------------------
+
+func REmptyIter(c *core.Ctx) {
+	c.Rule("R-EMPTYITER", "every interpreter opcode that closes a group loop (some clause of it pushes a new mark and jumps back to the loop body) contains, in one of its clauses, a test for an empty iteration: an ==/!= comparison of two saved/current text positions, or of their difference with 0", 4)
+	m := buildOpModel(c)
+	if !m.ok {
+		c.Anchor("bytecode model")
+		return
+	}
+	p := c.P
+	info := p.Pkg("").TypesInfo
+	fn := func(n string) *types.Func { return p.LookupFunc("", "Runner."+n) }
+	push1, push2, goTo := fn("stackPush"), fn("stackPush2"), fn("goTo")
+	posFns := map[*types.Func]bool{}
+	for _, n := range []string{"textPos", "stackPeek", "stackPeekN", "trackPeek", "trackPeekN"} {
+		if f := fn(n); f != nil {
+			posFns[f] = true
+		} else {
+			c.Anchor("Runner." + n)
+			return
+		}
+	}
+	opField := p.LookupField("", "Runner", "operator")
+	if push1 == nil || push2 == nil || goTo == nil || opField == nil {
+		c.Anchor("Runner.stackPush / stackPush2 / goTo / operator")
+		return
+	}
+	closers := map[int64]bool{}
+	byOp := map[int64][]*clause{}
+	for _, cl := range m.clauses {
+		pe := &pathEnum{info: info, opField: opField, mask: m.mask, limit: 4000, ok: true}
+		sps := pe.paths(cl.cc.Body, -1)
+		for _, l := range cl.labels {
+			byOp[l.op] = append(byOp[l.op], cl)
+			if !pe.ok {
+				continue
+			}
+			for _, sp := range sps {
+				pushed, jumped := false, false
+				for _, e := range sp.events {
+					if e.only >= 0 && e.only != l.op {
+						continue
+					}
+					if e.fn == push1 || e.fn == push2 {
+						pushed = true
+					}
+					if e.fn == goTo && pushed {
+						jumped = true
+					}
+				}
+				if jumped {
+					closers[l.op] = true
+				}
+			}
+		}
+	}
+	if len(closers) == 0 {
+		c.Anchor("an opcode clause that pushes a mark and jumps back")
+		return
+	}
+	var ops []int64
+	for op := range closers {
+		ops = append(ops, op)
+	}
+	sort.Slice(ops, func(i, j int) bool { return ops[i] < ops[j] })
+	c.Visit("regexp2.(*Runner).executeDefault")
+	for _, op := range ops {
+		found := ""
+		for _, cl := range byOp[op] {
+			// locals defined in the clause
+			defs := map[types.Object]ast.Expr{}
+			ast.Inspect(cl.cc, func(x ast.Node) bool {
+				if as, ok := x.(*ast.AssignStmt); ok && as.Tok == token.DEFINE && len(as.Lhs) == len(as.Rhs) {
+					for i, l := range as.Lhs {
+						if id, ok := l.(*ast.Ident); ok {
+							defs[info.ObjectOf(id)] = as.Rhs[i]
+						}
+					}
+				}
+				return true
+			})
+			var isPos, isDiff func(e ast.Expr, d int) bool
+			isPos = func(e ast.Expr, d int) bool {
+				e = ast.Unparen(e)
+				if d > 4 {
+					return false
+				}
+				switch x := e.(type) {
+				case *ast.CallExpr:
+					return posFns[core.Callee(info, x)]
+				case *ast.Ident:
+					if rhs, ok := defs[info.ObjectOf(x)]; ok {
+						return isPos(rhs, d+1)
+					}
+				}
+				return false
+			}
+			isDiff = func(e ast.Expr, d int) bool {
+				e = ast.Unparen(e)
+				if d > 4 {
+					return false
+				}
+				switch x := e.(type) {
+				case *ast.BinaryExpr:
+					return x.Op == token.SUB && isPos(x.X, d+1) && isPos(x.Y, d+1)
+				case *ast.Ident:
+					if rhs, ok := defs[info.ObjectOf(x)]; ok {
+						return isDiff(rhs, d+1)
+					}
+				}
+				return false
+			}
+			ast.Inspect(cl.cc, func(x ast.Node) bool {
+				be, ok := x.(*ast.BinaryExpr)
+				if !ok || (be.Op != token.EQL && be.Op != token.NEQ) || found != "" {
+					return true
+				}
+				if isPos(be.X, 0) && isPos(be.Y, 0) {
+					found = types.ExprString(be) + " at " + p.Pos(be.Pos())
+				}
+				if k, isC := core.ConstInt(info, be.Y); isC && k == 0 && isDiff(be.X, 0) {
+					found = types.ExprString(be) + " at " + p.Pos(be.Pos())
+				}
+				return true
+			})
+		}
+		pos := token.NoPos
+		if len(byOp[op]) > 0 {
+			pos = byOp[op][0].cc.Pos()
+		}
+		c.Check(found != "", fmt.Sprintf("executeDefault / %s tests for an empty iteration before looping again", m.opName[op]), pos,
+			"no clause of %s compares the current text position with the saved mark: an iteration that matched nothing is repeated (phantom captures, exhausted {m,n} budget, or a spin up to the stack limit); found: %s", m.opName[op], found)
+	}
+}
